@@ -215,7 +215,7 @@ func runC16(c *Ctx) Result {
 	}
 	// a share of runs: structurally invalid text behind a non-validating constructor
 	invalid := false
-	if t.Draw(simrt.Knobs, 8) == 0 && (b.Mode <= 2 || b.Mode == 5) {
+	if t.Draw(simrt.Knobs, 5) == 0 && (b.Mode <= 2 || b.Mode == 5) {
 		// corrupt one scalar inside the addressed subtree
 		mut := corruptJSON(g, text)
 		if mut != text {
@@ -242,7 +242,11 @@ func runC16(c *Ctx) Result {
 		n := 1 + g.d(8)
 		for j := 0; j < n; j++ {
 			var p []interface{}
-			switch g.d(10) {
+			pick := g.d(10)
+			if invalid && pick > 5 {
+				pick = 0 // malformed text: keep the readers on the same few nodes (error publication)
+			}
+			switch pick {
 			case 0, 1, 2, 3, 4: // hot path or a prefix / extension of it
 				p = append(p, hot...)
 				if len(p) > 0 && g.d(3) == 0 {
